@@ -9,6 +9,10 @@
 #include <functional>
 
 template<class S> struct ScalarIO;   // parse / print a scalar exactly
+// dual-number scalars: argument vectors are (primal parts ++ dual parts); every output vector is printed as two
+template<class S> struct DualIO { static constexpr bool value=false;
+  static S make(const std::string& p, const std::string&){ return ScalarIO<S>::parse(p); }
+  static std::string primal(const S& x){ return ScalarIO<S>::print(x); } static std::string dualpart(const S&){ return "0"; } };
 
 struct Case {
   std::string id, group, op, mask, iarg, flt;
@@ -33,14 +37,19 @@ template<class S> struct Out {
   void scalar(const S& s){ outs.push_back(std::vector<S>{s}); }
   void boolean(bool b){ outs.push_back(std::vector<S>{S(b?1:0)}); }
   std::string str() const {
-    std::ostringstream os; os << "ok " << outs.size();
+    std::ostringstream os;
+    if(DualIO<S>::value){ os << "ok " << 2*outs.size();
+      for(auto& v:outs){ os << " " << v.size(); for(auto& x:v) os << " " << DualIO<S>::primal(x); os << " " << v.size(); for(auto& x:v) os << " " << DualIO<S>::dualpart(x); }
+      return os.str(); }
+    os << "ok " << outs.size();
     for(auto& v:outs){ os << " " << v.size(); for(auto& x:v) os << " " << ScalarIO<S>::print(x); }
     return os.str();
   }
 };
 
 template<class S, class V> V vec_from(const std::vector<std::string>& a){
-  V v; if(V::RowsAtCompileTime==Eigen::Dynamic) v.resize(a.size());
-  for(int i=0;i<v.size();i++) v(i) = (size_t)i<a.size()? ScalarIO<S>::parse(a[i]) : S(0);
+  const size_t n = DualIO<S>::value ? a.size()/2 : a.size();
+  V v; if(V::RowsAtCompileTime==Eigen::Dynamic) v.resize(n);
+  for(int i=0;i<v.size();i++) v(i) = (size_t)i<n ? (DualIO<S>::value ? DualIO<S>::make(a[i], a[n+i]) : ScalarIO<S>::parse(a[i])) : S(0);
   return v;
 }
